@@ -37,7 +37,7 @@ def h_runout(ctx: Any, code: str, n: int, street: str, boards: int = 1, mode: st
     autos = tuple(a for a in Automation if a not in (Automation.RUNOUT_COUNT_SELECTION,
                                                      Automation.HOLE_CARDS_SHOWING_OR_MUCKING))
     stacks = tuple(stacks or (41,) * n)
-    st = C.call(ctx, C.make_state, code, dict(n=n, stacks=stacks, blinds=(1, 2), min_bet=2, antes=0,
+    st = C.call(ctx, C.make_state, code, dict(n=n, stacks=stacks, blinds=(1, 2), min_bet=2, small_bet=2, big_bet=4, antes=0,
                                                automations=autos, starting_board_count=boards,
                                                mode=Mode.CASH_GAME if mode == 'C' else Mode.TOURNAMENT))
     script = SCRIPTS[street]
@@ -73,6 +73,12 @@ def h_runout(ctx: Any, code: str, n: int, street: str, boards: int = 1, mode: st
             # is a selection due here at all?
             remaining = [i for i in range(n) if st.statuses[i]]
             board_to_come = any(s.board_dealing_count for s in st.streets[(st.street_index or 0) + 1:])
+            if 'first_showdown' not in pot_totals:
+                pot_totals['first_showdown'] = True
+                due = (mode == 'C' and board_to_come and len(remaining) > 1
+                       and sum(1 for i in remaining if st.stacks[i]) <= 1)
+                ctx.check(bool(sel) == due, 'selection-not-offered-when-due' if due else 'selection-offered-when-not-due',
+                          lambda: f'street {st.street_index} selectors {sel} stacks {st.stacks}')
             if sel:
                 ctx.check(mode == 'C', 'selection-offered-in-tournament')
                 ctx.check(all(st.stacks[i] == 0 for i in remaining) or sum(1 for i in remaining if st.stacks[i]) <= 1,
@@ -110,6 +116,7 @@ def h_runout(ctx: Any, code: str, n: int, street: str, boards: int = 1, mode: st
         if mode != 'C':
             ctx.check(not selected, 'selection-in-tournament')
         at_offer = pot_totals.pop('at_offer', None)
+        pot_totals.pop('first_showdown', None)
         remaining = [i for i in range(n) if st.statuses[i]]
         if selected:
             ctx.check(sorted(selected) == sorted(at_offer), 'not-every-remaining-player-asked',
@@ -150,7 +157,8 @@ def jobs(tier: str, seed: int) -> list[dict]:
     out = []
     B = 300 if tier == 'quick' else 900
     for street in ('preflop', 'flop', 'turn', 'river', 'none'):
-        for code, n, boards, stacks in (('NT', 2, 1, (41, 41)), ('NT', 3, 1, (41, 20, 41)), ('PO', 2, 2, (5, 5))):
+        for code, n, boards, stacks in (('NT', 2, 1, (41, 41)), ('NT', 3, 1, (41, 20, 41)), ('PO', 2, 2, (5, 5)), ('FO8', 2, 2, (5, 5)),
+                                       ('NS', 2, 2, (41, 41))):
             for mode in ('C', 'T'):
                 if mode == 'T' and street not in ('preflop', 'none'):
                     continue
